@@ -27,6 +27,19 @@ type vTarget struct {
 	Updates [][]*sdcpb.Update
 	Deletes [][]*sdcpb.Path
 	FailSet int // 1-based index of the Set call that fails (0 = never)
+
+	AllEncodings  bool // also render JSON, JSON_IETF and XML (8 option combinations)
+	JsonEmpty     []bool
+	JsonIetfEmpty []bool
+	XmlEmpty      []bool
+}
+
+func vJsonEmpty(j any) bool {
+	if j == nil {
+		return true
+	}
+	m, ok := j.(map[string]any)
+	return ok && len(m) == 0
 }
 
 var errVerifTarget = errors.New("verif: injected target failure")
@@ -50,6 +63,29 @@ func (t *vTarget) Set(ctx context.Context, source target.TargetSource) (*sdcpb.S
 	}
 	t.Updates = append(t.Updates, upds)
 	t.Deletes = append(t.Deletes, dels)
+	if t.AllEncodings {
+		j, err := source.ToJson(true)
+		if err != nil {
+			return nil, err
+		}
+		ji, err := source.ToJsonIETF(true)
+		if err != nil {
+			return nil, err
+		}
+		xmlEmpty := true
+		for i := 0; i < 8; i++ {
+			doc, err := source.ToXML(true, i&1 != 0, i&2 != 0, i&4 != 0)
+			if err != nil {
+				return nil, err
+			}
+			if doc != nil && len(doc.ChildElements()) > 0 {
+				xmlEmpty = false
+			}
+		}
+		t.JsonEmpty = append(t.JsonEmpty, vJsonEmpty(j))
+		t.JsonIetfEmpty = append(t.JsonIetfEmpty, vJsonEmpty(ji))
+		t.XmlEmpty = append(t.XmlEmpty, xmlEmpty)
+	}
 	return &sdcpb.SetDataResponse{}, nil
 }
 
